@@ -14,5 +14,9 @@ print("coq build rc", st["rc"], "vos", len(st["vos"]), "wall", st.get("wall_s"))
 if "Impl/Render.vo" not in st["vos"]:
     print(st["log"][-4000:]); sys.exit(1)
 print(core.build_model(st))
-print(core.build_harness())
+try:
+    print(core.build_harness())
+except core.HarnessBuildError as e:
+    # not a set-up failure: every check reports it as a broken correspondence (VIOLATION ... no-failing-input-found)
+    print("note: the harness does not compile against the current /repo tree:", str(e)[:500])
 PY
